@@ -635,10 +635,22 @@ func doInstall(st *state.State, snapst *SnapState, snapsup SnapSetup, compsups [
 
 		// discard everything after "current" (we may have reverted to
 		// a previous versions earlier)
+		var inUse boot.InUseFunc
 		for i := currentIndex + 1; i < len(seq); i++ {
 			si := seq[i]
 			if si.Snap.Revision == targetRevision {
 				// but don't discard this one; its' the thing we're switching to!
+				continue
+			}
+			if inUse == nil {
+				var err error
+				inUse, err = inUseCheck(snapsup.Type)
+				if err != nil {
+					return nil, err
+				}
+			}
+			if inUse(snapsup.InstanceName(), si.Snap.Revision) {
+				// never discard a revision still needed for booting
 				continue
 			}
 			ts, err := removeInactiveRevision(st, snapst, snapsup.InstanceName(), si.Snap.SnapID, si.Snap.Revision, snapsup.Type)
@@ -662,7 +674,6 @@ func doInstall(st *state.State, snapst *SnapState, snapsup SnapSetup, compsups [
 		}
 
 		// normal garbage collect
-		var inUse boot.InUseFunc
 		for i := 0; i <= currentIndex-retain; i++ {
 			if inUse == nil {
 				var err error
